@@ -309,7 +309,10 @@ func (in *Interp) callSSA0(caller *frame, fn *ssa.Function, args []Value, env []
 		// package-level function or method: intrinsic?
 		if fn.Synthetic == "" || fn.Origin() != nil || true {
 			if h := in.lookupIntrinsic(fn); h != nil {
-				return h(in, caller, fn, args)
+				r := h(in, caller, fn, args)
+				if _, fall := r.(useBody); !fall {
+					return r
+				}
 			}
 		}
 		if fn.Pkg != nil && fn.Name() == "init" && in.initMode > 0 && caller != nil && caller.fn.Name() == "init" && fn.Pkg != caller.fn.Pkg {
